@@ -98,6 +98,18 @@ class HRNP(BytesInterface):
             HRNP.calculate_checksum(data[0:10] + data[12:hrnp_packet_len])
             == data[10:12]
         )
+        # the announced packet length selects the octets the checksum covers, so a length field corrupted
+        # in transit can select another range whose checksum happens to match: a DATA packet is the
+        # 12 header octets and one HDAP message (service, opcode, length, payload, checksum, end), its
+        # length must be the one the carried message accounts for (length read in the message's endianness)
+        if hrnp.has_data() and not (
+            isinstance(hrnp.data, HDAP)
+            and hrnp_packet_len
+            == 12
+            + 7
+            + int.from_bytes(data[15:17], byteorder=hrnp.data.get_endianness())
+        ):
+            hrnp.checksum_correct = False
         return hrnp
 
     def as_bytes(self, endian: Literal["big", "little"] = "big") -> bytes:
